@@ -2,6 +2,9 @@ module verif
 
 go 1.23
 
-require github.com/corazawaf/libinjection-go v0.0.0
+require (
+	github.com/corazawaf/libinjection-go v0.0.0
+	golang.org/x/tools v0.29.0
+)
 
 replace github.com/corazawaf/libinjection-go => /repo
